@@ -193,18 +193,32 @@ Inductive op :=
 | OList
 | OGet (name : string).
 
-(* primitive steps of UpdateSpec, for the crash states (os.WriteFile = open with O_TRUNC, write, close) *)
+(* primitive steps of UpdateSpec, for the crash states.  Since e29932b the new text goes to a temporary file
+   in the same directory (os.CreateTemp = open with O_CREAT|O_EXCL), write, chmod, fsync, close, and the
+   temporary file is renamed over the definition (dag_store.go writeFileAtomic). *)
 Inductive prim :=
 | PValidate
 | PExists (p : string)
-| POpenTrunc (p : string)
+| PCreateTemp (p : string)
 | PAppend (p : string) (chunk : bytes)
-| PClose (p : string).
+| PChmod (p : string)
+| PSync (p : string)
+| PClose (p : string)
+| PRenameFile (src dst : string).
 
 Fixpoint take_str (n : nat) (s : string) : string :=
   match n, s with
   | S k, String c r => String c (take_str k r)
   | _, _ => EmptyString
+  end.
+
+Fixpoint strip_prefix (pre s : string) : option string :=
+  match pre with
+  | EmptyString => Some s
+  | String c r => match s with
+                  | String d t => if Ascii.eqb c d then strip_prefix r t else None
+                  | EmptyString => None
+                  end
   end.
 
 Section Store.
@@ -228,13 +242,15 @@ Section Store.
     | Some p => load_at f p
     end.
 
-  (* DAGStore.Rename: a bare os.Rename(oldLoc, newLoc) - an existing target is replaced *)
-  Definition store_rename (f : fs) (old new : string) : option fs :=
+  (* DAGStore.Rename (since 87dde6e): refused when another file already has the target name, else
+     os.Rename(oldLoc, newLoc).  The result is (ROk, new file system) or (error, unchanged file system). *)
+  Definition store_rename (f : fs) (old new : string) : res * fs :=
     let src := file_loc dir old in let dst := file_loc dir new in
-    match fs_get src f with
-    | None => None
-    | Some b => Some (if String.eqb src dst then f else fs_set dst b (fs_del src f))
-    end.
+    if negb (String.eqb src dst) && fs_mem dst f then (RExists, f)
+    else match fs_get src f with
+         | None => (RNotExist, f)
+         | Some b => (ROk, if String.eqb src dst then f else fs_set dst b (fs_del src f))
+         end.
 
   (* jsondb.Rename applies AddYamlExtension to both locations and insists on absolute paths *)
   Definition hist_rename (h : hist) (oldloc newloc : string) : option hist :=
@@ -246,11 +262,10 @@ Section Store.
 
   (* the base name of a path directly inside dir *)
   Definition base_in_dir (p : string) : option string :=
-    let pre := dir ++ "/" in
-    let k := String.length pre in
-    if String.eqb (substring 0 k p) pre
-    then let b := substring k (String.length p - k) p in if has_slash b || String.eqb b "" then None else Some b
-    else None.
+    match strip_prefix (dir ++ "/") p with
+    | Some b => if has_slash b || String.eqb b "" then None else Some b
+    | None => None
+    end.
 
   Definition list_entry (f : fs) (p : string) : option (string * bool) :=
     match base_in_dir p with
@@ -276,15 +291,14 @@ Section Store.
              else (w, RNotExist, [])
     | OStoreRename old new =>
         match store_rename (w_defs w) old new with
-        | None => (w, RNotExist, [])
-        | Some d => (set_defs w d, ROk, [])
+        | (ROk, d) => (set_defs w d, ROk, [])
+        | (e, _) => (w, e, [])
         end
     | ORename old new =>
         match find_dag (w_defs w) old with
         | (ROk, oldloc) =>
             match store_rename (w_defs w) old new with
-            | None => (w, RNotExist, [])
-            | Some d =>
+            | (ROk, d) =>
                 let w1 := set_defs w d in
                 match find_dag d new with
                 | (ROk, newloc) =>
@@ -294,6 +308,7 @@ Section Store.
                     end
                 | (e, _) => (w1, e, [])
                 end
+            | (e, _) => (w, e, [])
             end
         | (e, _) => (w, e, [])
         end
@@ -328,25 +343,31 @@ Section Store.
 
   (* ---- crash states of UpdateSpec ---- *)
 
-  Definition save_prims (f : fs) (name : string) (spec : bytes) : list prim :=
+  (* the temporary file: <definition>.tmp-<random>; rnd is what os.CreateTemp chose (a name not in use) *)
+  Definition tmp_of (p rnd : string) : string := p ++ ".tmp-" ++ rnd.
+
+  Definition save_prims (f : fs) (name : string) (spec : bytes) (rnd : string) : list prim :=
     if negb (valid spec) then [PValidate]
     else let p := file_loc dir name in
-         if fs_mem p f then [PValidate; PExists p; POpenTrunc p; PAppend p spec; PClose p]
+         if fs_mem p f
+         then let t := tmp_of p rnd in
+              [PValidate; PExists p; PCreateTemp t; PAppend t spec; PChmod t; PSync t; PClose t; PRenameFile t p]
          else [PValidate; PExists p].
 
   Definition run_prim (f : fs) (pr : prim) : fs :=
     match pr with
-    | PValidate | PExists _ | PClose _ => f
-    | POpenTrunc p => fs_set p "" f
+    | PValidate | PExists _ | PChmod _ | PSync _ | PClose _ => f
+    | PCreateTemp p => fs_set p "" f
     | PAppend p c => fs_set p (match fs_get p f with Some b => b | None => "" end ++ c) f
+    | PRenameFile s d => match fs_get s f with Some b => fs_set d b (fs_del s f) | None => f end
     end.
 
   Definition run_prims (f : fs) (ps : list prim) : fs := fold_left run_prim ps f.
 
   (* the file system left by a kill after n complete primitive steps; if the next step is a write it may
      additionally have transferred the first t bytes of its chunk *)
-  Definition crash_fs (f : fs) (name : string) (spec : bytes) (n t : nat) : fs :=
-    let ps := save_prims f name spec in
+  Definition crash_fs (f : fs) (name : string) (spec : bytes) (rnd : string) (n t : nat) : fs :=
+    let ps := save_prims f name spec rnd in
     let f1 := run_prims f (firstn n ps) in
     match nth_error ps n with
     | Some (PAppend p c) => if (t <=? String.length c)%nat then run_prim f1 (PAppend p (take_str t c)) else f1
